@@ -105,6 +105,14 @@ $x < 0
 ~ $x ^ 0
 ~ $x % 1
 &$x
+&($x)
+~ (($x))
+~ *($x)
+~ ($x)()
+~ (<-$x)
+~ ($x).A
+~ ($x)[0]
+~ (*($x)).A
 *$x
 ~ **$x
 ~ &*$x
@@ -441,6 +449,15 @@ $x += "s"
 ~ $x = !$x
 $x = $y
 $x, $y = $y, $x
+($x) = $y
+($x)++
+~ (($x)) += 1
+(*$x) = *$y
+~ (*$x)++
+($x.A) = 1
+($x[0]) = $x[1]
+~ ($x[0])++
+~ ($x["k"]) = 1
 *$x = *$y
 ~ *$x++
 ~ *$x += 1
@@ -557,8 +574,6 @@ var z $T ;; z.PM()
 ~ var z $T ;; sink(z.Error())
 var z $T ;; z = append(z, $x...) ;; sink(z)
 panic($x)
-print($x)
-~ println($x, $y)
 for i := 0; i < $x; i++ { }
 ~ for i := $x; i > 0; i-- { }
 ~ for i := range $x { if i > $y { break } }
